@@ -361,6 +361,68 @@ func checkC15(c *Ctx) {
 		}
 	}
 	checkSumDropped(c, p, "C15.clone")
+	// a slice field whose nil-ness is state (`if s.buf == nil` elsewhere in the type) is cloned so that an
+	// empty non-nil slice stays non-nil: `append([]byte(nil), s.buf...)` turns it into nil
+	for _, cl := range []struct{ pkg, typ, name string }{{"xof/k12", "State", "Clone"}, {"internal/sha3", "State", "clone"}} {
+		f := p.Func(cl.pkg, cl.typ, cl.name)
+		what := "(" + cl.pkg + "." + cl.typ + ")." + cl.name + ": a slice whose nil-ness other methods test is copied without losing it"
+		if f == nil {
+			c.undecided("C15.clone", what, "anchor does not resolve", "")
+			continue
+		}
+		// fields of the type compared with nil anywhere in the package
+		nilTested := map[string]bool{}
+		for g := range p.AllFuncs {
+			if g.Blocks == nil || funcPkgPath(g) != circlPath+"/"+cl.pkg {
+				continue
+			}
+			for _, b := range g.Blocks {
+				for _, in := range b.Instrs {
+					bo, ok := in.(*ssa.BinOp)
+					if !ok || (bo.Op != token.EQL && bo.Op != token.NEQ) {
+						continue
+					}
+					k, isK := bo.Y.(*ssa.Const)
+					ld, isLd := bo.X.(*ssa.UnOp)
+					if !isK || !k.IsNil() || !isLd {
+						continue
+					}
+					if fa, ok := ld.X.(*ssa.FieldAddr); ok {
+						if _, isSlice := ld.Type().Underlying().(*types.Slice); isSlice {
+							nilTested[fieldName(fa)] = true
+						}
+					}
+				}
+			}
+		}
+		var bad []string
+		n := 0
+		for _, b := range f.Blocks {
+			for _, in := range b.Instrs {
+				st, ok := in.(*ssa.Store)
+				if !ok {
+					continue
+				}
+				fa, ok := st.Addr.(*ssa.FieldAddr)
+				if !ok || !nilTested[fieldName(fa)] {
+					continue
+				}
+				n++
+				if call, ok := st.Val.(*ssa.Call); ok {
+					if bi, ok := call.Call.Value.(*ssa.Builtin); ok && bi.Name() == "append" && len(call.Call.Args) > 0 {
+						if k, ok := call.Call.Args[0].(*ssa.Const); ok && k.IsNil() {
+							bad = append(bad, fmt.Sprintf("field %s is copied with append(nil, ...) at %s: an empty non-nil slice becomes nil", fieldName(fa), p.pos(st.Pos())))
+						}
+					}
+				}
+			}
+		}
+		if len(bad) > 0 {
+			c.bad("C15.clone", what, strings.Join(bad, "; "), p.fnPos(f))
+		} else {
+			c.ok("C15.clone", what, fmt.Sprintf("%d store(s) into nil-tested slice fields, none through append(nil, ...)", n), p.fnPos(f))
+		}
+	}
 	// reset
 	c.resetRule(p, "internal/sha3", "State", []string{"Write", "Read"}, map[string]string{
 		"storage": "the buffer contents outside [bufo, bufe) are dead; Reset empties the window",
